@@ -1719,7 +1719,7 @@ func lemmaForwardSession(raw *rawEnvelope) (e *Session, e3 *Session, accepted bo
 //@   ensures err == nil && istype(e, *Session) && sesStage(e.(*Session)) == 3 && e.(*Session).SchemeOptions != nil ==> t.offerSchemes == e.(*Session).SchemeOptions
 //@   ensures !(err == nil && istype(e, *Session) && sesStage(e.(*Session)) == 3 && e.(*Session).SchemeOptions != nil) ==> t.offerSchemes == old(t.offerSchemes)
 //@   ensures !(err == nil && istype(e, *Session)) ==> t.stage == old(t.stage)
-//@   ensures err == nil ==> old(t.connected) && t.nSent == old(t.nSent) + 1 && t.lastSent == e
+//@   ensures err == nil ==> old(t.connected) && t.connected && t.nSent == old(t.nSent) + 1 && t.lastSent == e
 //@   ensures err == nil && istype(e, *Session) ==> t.nSentSes == old(t.nSentSes) + 1 && t.lastSes == e.(*Session)
 //@   ensures err == nil && !istype(e, *Session) ==> t.nSentSes == old(t.nSentSes) && t.lastSes == old(t.lastSes)
 //@   ensures err != nil ==> t.nSent == old(t.nSent) && t.lastSent == old(t.lastSent) && t.nSentSes == old(t.nSentSes) && t.lastSes == old(t.lastSes)
@@ -1729,7 +1729,7 @@ func lemmaForwardSession(raw *rawEnvelope) (e *Session, e3 *Session, accepted bo
 //@ method Transport.Receive(t, ctx) (env, err)
 //@   modifies t.nRecv, t.lastRecv, t.connected, recvClock
 //@   ensures recvClock == old(recvClock) + 1
-//@   ensures err == nil ==> env != nil && !payloadnil(env) && isKind(env) && t.lastRecv == env && t.nRecv == old(t.nRecv) + 1
+//@   ensures err == nil ==> env != nil && !payloadnil(env) && isKind(env) && t.lastRecv == env && t.nRecv == old(t.nRecv) + 1 && old(t.connected) && t.connected
 //@   ensures err != nil ==> t.lastRecv == old(t.lastRecv) && t.nRecv == old(t.nRecv)
 //@   ensures t.connected ==> old(t.connected)
 //@   note a received envelope is a non-nil pointer of one of the five envelope kinds (closed world: interface envelope has unexported methods)
@@ -1751,6 +1751,7 @@ func lemmaForwardSession(raw *rawEnvelope) (e *Session, e3 *Session, accepted bo
 //@   pure
 //@   ensures result == t.comp
 //@ method Transport.SetEncryption(t, ctx, e) (err)
+//@   requires @open t.connected  ## the options are switched on a live connection: right after the confirmation was sent (server) or received (client)
 //@   modifies t.enc
 //@   ensures err == nil ==> t.enc == e
 //@   ensures err != nil ==> t.enc == old(t.enc)
@@ -1822,6 +1823,7 @@ func lemmaForwardSession(raw *rawEnvelope) (e *Session, e3 *Session, accepted bo
 //@   ensures !(result == nil && sesStage(ses) == 3 && ses.SchemeOptions != nil) ==> c.transport.offerSchemes == old(c.transport.offerSchemes)
 //@   ensures result != nil ==> c.transport.stage == old(c.transport.stage)
 //@   ensures result == nil ==> old(transportOK(c)) && old(c.state) != SessionStateFinished && old(c.state) != SessionStateFailed
+//@   ensures result == nil ==> c.transport.connected  ## a transport that accepted an envelope is still open afterwards
 //@   ensures result == nil ==> c.transport.nSentSes == old(c.transport.nSentSes) + 1 && c.transport.lastSes == ses && c.transport.nSent == old(c.transport.nSent) + 1
 //@   ensures result != nil ==> c.transport.nSentSes == old(c.transport.nSentSes) && c.transport.lastSes == old(c.transport.lastSes) && c.transport.nSent == old(c.transport.nSent)
 //@   ensures c.transport != nil && c.transport.connected ==> old(c.transport.connected)
@@ -1835,6 +1837,7 @@ func lemmaForwardSession(raw *rawEnvelope) (e *Session, e3 *Session, accepted bo
 //@   ensures err != nil ==> result0 == nil
 //@   ensures old(c.state) == SessionStateFinished ==> err != nil
 //@   ensures err == nil && old(c.state) != SessionStateEstablished ==> old(transportOK(c)) && c.transport.nRecv == old(c.transport.nRecv) + 1 && istype(c.transport.lastRecv, *Session) && c.transport.lastRecv.(*Session) == result0
+//@   ensures err == nil && old(c.state) != SessionStateEstablished ==> c.transport.connected
 //@   ensures err != nil || old(c.state) == SessionStateEstablished ==> c.transport.nRecv == old(c.transport.nRecv) || (err != nil && !istype(c.transport.lastRecv, *Session))
 //@   ensures c.transport != nil && c.transport.connected ==> old(c.transport.connected)
 //@   ensures c.transport.nRecv >= old(c.transport.nRecv) && recvClock >= old(recvClock)
@@ -1878,6 +1881,7 @@ func lemmaForwardSession(raw *rawEnvelope) (e *Session, e3 *Session, accepted bo
 
 //@ func (*ClientChannel).receiveSessionFromServer
 //@   props C08
+//@   ensures err == nil && old(c.state) != SessionStateEstablished && result0.State != SessionStateFinished && result0.State != SessionStateFailed ==> c.transport.connected
 //@   ensures err == nil && result0.State == SessionStateEstablished ==> c.startRcv.fired
 //@   ensures c.startRcv.fired && !old(c.startRcv.fired) ==> step(c.state) >= 3
 //@   ensures c.transport.nRecv >= old(c.transport.nRecv)
@@ -1908,6 +1912,7 @@ func lemmaForwardSession(raw *rawEnvelope) (e *Session, e3 *Session, accepted bo
 
 //@ func (*ClientChannel).negotiateSession
 //@   props C08
+//@   ensures err == nil && result0.State != SessionStateFinished && result0.State != SessionStateFailed ==> c.transport.connected
 //@   ensures err == nil && result0.State == SessionStateEstablished ==> c.startRcv.fired
 //@   ensures c.startRcv.fired && !old(c.startRcv.fired) ==> step(c.state) >= 3
 //@   ensures c.transport.nRecv >= old(c.transport.nRecv)
@@ -2154,6 +2159,7 @@ func lemmaForwardSession(raw *rawEnvelope) (e *Session, e3 *Session, accepted bo
 //@   requires [C09,C10] @offered c.state == SessionStateNegotiating ==> inset(elems(c.transport.offerEnc), encrypt) && inset(elems(c.transport.offerComp), comp) && recvSes(c.channel).Encryption == encrypt && recvSes(c.channel).Compression == comp
 //@   modifies c.transport.connected, c.transport.nSent, c.transport.lastSent, c.transport.nSentSes, c.transport.lastSes, c.transport.stage, c.transport.offerEnc, c.transport.offerComp, c.transport.offerSchemes, c.transport.confEnc, c.transport.confComp
 //@   ensures result == nil ==> old(c.state) == SessionStateNegotiating && c.transport.stage == 2 && c.transport.nSentSes > 0 && c.transport.confEnc == encrypt && c.transport.confComp == comp
+//@   ensures result == nil ==> c.transport.connected
 //@   ensures result != nil ==> c.transport.stage == old(c.transport.stage) && c.transport.nSentSes == old(c.transport.nSentSes)
 //@   ensures c.transport.offerEnc == old(c.transport.offerEnc) && c.transport.offerComp == old(c.transport.offerComp)
 //@   ensures srvInv(c)
@@ -2524,6 +2530,30 @@ func lemmaForwardSession(raw *rawEnvelope) (e *Session, e3 *Session, accepted bo
 //@   modifies t.eof, t.ctxConn.writeCtx, t.ctxConn.writeCancel
 //@   oncall [C04] (*encoding/json.Encoder).Encode : a_v == e
 //@   ensures [C12] @notopen old(t.conn == nil || t.eof) ==> result != nil
+
+//@ func (*tcpTransport).Encryption
+//@   props C09 C10
+//@   requires t != nil
+//@   modifies nothing
+//@   ensures result == t.encryption
+
+//@ func (*tcpTransport).SupportedEncryption
+//@   props C09 C10
+//@   modifies nothing
+//@   ensures [C09] fresh(result) && len(result) == 2 && result[0] == SessionEncryptionNone && result[1] == SessionEncryptionTLS
+
+// SetEncryption against the Transport model (t.enc is t.encryption, t.connected is
+// t.conn != nil && !t.eof): the option reported in force is the one asked for.
+//@ func (*tcpTransport).SetEncryption
+//@   props C09 C10 C16
+//@   requires t != nil && ctx != nil && t.conn != nil && !t.eof && t.ReadLimit >= 0
+//@   modifies t.conn, t.ctxConn, t.encoder, t.decoder, t.limitedReader, t.ReadLimit, t.limitedReader.consumed, t.encryption
+//@   ensures [C09] @inforce result == nil ==> t.encryption == e
+//@   ensures [C09] @unchangedonerror result != nil ==> t.encryption == old(t.encryption) && t.conn == old(t.conn)
+//@   ensures [C09,C10] @tlsmeanstls result == nil && e == SessionEncryptionTLS && old(t.encryption) != SessionEncryptionTLS ==> istype(t.conn, *tls.Conn)
+//@   ensures [C09] @nodowngrade old(t.encryption) == SessionEncryptionTLS && e != SessionEncryptionTLS ==> result != nil
+//@   ensures [C16] @rearmed result == nil && e != old(t.encryption) ==> tcpInv(t) && t.limitedReader.N == t.ReadLimit
+//@   ensures t.conn != nil && !t.eof
 
 //@ func (*tcpTransport).Close
 //@   props C12
